@@ -33,7 +33,8 @@ REQUIRED = {"residue_classes": 600, "isomorphism_pairs_checked": 500, "same_name
             "virtual_sites_checked": 300, "vs_kinds": 7, "stacked_site_residues": 20, "optimiser_successes_rechecked": 300, "impropers_rechecked": 60,
             "user_templates": 40, "user_volumes": 60, "equivariance_checks": 500, "size_independence_checks": 25,
             "optimiser_failures_seen": 30, "same_names_other_connectivity": 10, "two_templates_under_one_name": 8, "names_with_several_unoptimised_templates": 10,
-            "templates_reported_optimised_rechecked": 500, "templates_reported_unoptimised": 50, "build_files_with_volumes_first": 40}
+            "templates_reported_optimised_rechecked": 500, "templates_reported_unoptimised": 50, "build_files_with_volumes_first": 40,
+            "templates_spread_over_two_build_files": 5}
 CAP = {"opt": [], "blocks": [], "final": [], "failed": set(), "nfailed": {}}
 _done = False
 
@@ -300,7 +301,7 @@ def build_topology(text, workdir, name, build=None):
     top = Topology.from_gmx_topfile(name="x", path=p)
     top.preprocess()
     if build:
-        load_build_files(top, None, [Path(build)])
+        load_build_files(top, None, [Path(b) for b in build] if isinstance(build, (list, tuple)) else [Path(build)])
     del CAP["opt"][:]
     del CAP["blocks"][:]
     del CAP["final"][:]
@@ -358,8 +359,10 @@ def run_case(cid, rng, workdir):
     text = render(sysd)
     # build file with user templates / volumes
     build = None
+    build2 = None
     user_t, user_v = {}, {}
     user_t2, user_v2 = {}, {}
+    user_v_all = {}
     used = {}
     for mt in moltypes:
         for r in mt["res"]:
@@ -423,13 +426,29 @@ def run_case(cid, rng, workdir):
             build = os.path.join(workdir, "t.bld")
             with open(build, "w") as fh:
                 fh.write("\n".join(bl) + "\n")
+            # the templates spread over two build files (-b a.bld b.bld): every file's templates are used
+            starts = [i for i, l in enumerate(bl) if l in ("[ template ]", "[ volumes ]")] + [len(bl)]
+            chunks = [bl[a:b] for a, b in zip(starts, starts[1:])]
+            tchunks = [c for c in chunks if c[0] == "[ template ]"]
+            if len(tchunks) >= 2 and rng.random() < 0.4:
+                k = rng.randint(1, len(tchunks) - 1)
+                vols = [c for c in chunks if c[0] == "[ volumes ]"]
+                first = [l for c in vols + tchunks[:k] for l in c]
+                second = [l for c in chunks if not any(c is t for t in tchunks[:k]) for l in c]
+                build2 = [os.path.join(workdir, "t1.bld"), os.path.join(workdir, "t2.bld")]
+                for pth, lines_ in zip(build2, (first, second)):
+                    with open(pth, "w") as fh:
+                        fh.write("\n".join(lines_) + "\n")
+                bump(res, "templates_spread_over_two_build_files")
     res["sig"] = sig_of([text, open(build).read() if build else None])
     res["sample"] = {"residues": {"%s/%d" % k: (v["kind"], v["atoms"], [x[:2] for x in v["vs"]]) for k, v in pool.items()},
                      "moltypes": [(m["name"], [r["name"] for r in m["res"]]) for m in moltypes],
                      "user_templates": sorted(user_t), "user_volumes": user_v}
     w = {"top": text, "build_file": open(build).read() if build else None}
+    if build2:
+        w["build_files"] = [open(b).read() for b in build2]
     try:
-        top = build_topology(text, workdir, "t.top", build)
+        top = build_topology(text, workdir, "t.top", build2 or build)
     except Exception as err:      # noqa
         if type(err).__name__ == "CaseTimeout":
             raise
@@ -597,7 +616,7 @@ def run_case(cid, rng, workdir):
                               "for its template, but %s %s is off by %.3f %s" % (rn, sec, list(it.atoms), dev, what), w)
     # ---- sizes belong to the residue class, not to the residue name --------------------------------------------
     for nm, ids in names.items():
-        if len(ids) > 1 and nm not in user_v:
+        if len(ids) > 1 and nm not in user_v_all:
             # (a site stacked on its only atom has no extent: its size is the radius, whatever the residue)
             variants = [(r, key) for r, key in reps if r["name"] == nm and len(r["atoms"]) >= 2 and
                         not (r["kind"] == "vs_stacked" and len(r["atoms"]) == 2)]
